@@ -1128,7 +1128,9 @@ class FileBuilder:
         try:
             return self._simple_operation_executor.file_comparison_result(
                 filename, file_comparison.name)
-        except (FileNotFoundError, IsADirectoryError):
+        except (FileNotFoundError, IsADirectoryError, NotADirectoryError):
+            # NotADirectoryError: one of the parents is a regular file, so the
+            # file doesn't exist
             return None
 
     def _is_build_file_cached(self, operation):
